@@ -67,6 +67,23 @@ OrderFree == Full => \A i \in 2..(N + 1) :
                     s == Sol(Q)
                 IN s.ok => [c \in 1..N |-> R(s.a[c], s.d)] = CentreRat
 
-Obs == [n |-> N, P |-> P, centre |-> CentreRat, r2 |-> R(Dist2Num(1), sol.d * sol.d)]
+\* Similarity: the sphere through c (P + t) has centre c (centre + t) and squared radius c^2 r^2.
+\* Checked exactly for c in {2, 3, -1} and the shift named in the record (size guarded).
+Shift == [c \in 1..N |-> ((FoWeight(P) + 3 * c) % 7) - 3]
+SimPts(c, t) == [j \in 1..(N + 1) |-> VScale(c, VAdd(P[j], t))]
+Similar == Full => \A c \in {2, 3, Neg1} :
+             LET Q == TLCEval(SimPts(c, Shift))
+                 s == Sol(Q)
+                 num == ISum([i \in 1..N |-> (s.a[i] - s.d * Q[1][i]) * (s.a[i] - s.d * Q[1][i])])
+             IN SmallSol(Q, s) =>
+                  /\ [i \in 1..N |-> R(s.a[i], s.d)]
+                       = [i \in 1..N |-> RMul(RInt(c), RAdd(CentreRat[i], RInt(Shift[i])))]
+                  /\ Dist2Num(1) <= 100000000 =>
+                       R(num, s.d * s.d) = RMul(RInt(c * c), R(Dist2Num(1), sol.d * sol.d))
+
+\* scales / si / shift: the harness replays sphere_through(c (P + shift)) for every c of `scales`
+\* (whole batch) and with c = scales[si] per record (mixed batch: tiny and large spheres side by side)
+Obs == [n |-> N, P |-> P, centre |-> CentreRat, r2 |-> R(Dist2Num(1), sol.d * sol.d),
+        scales |-> ScaleTable, si |-> (FoWeight(P) % Len(ScaleTable)) + 1, shift |-> Shift]
 EmitObs == Full => PrintT("OBS " \o ToJson(Obs))
 =============================================================================
